@@ -224,6 +224,9 @@ func (s *Script) AppendOpcodes(oo ...uint8) error {
 
 // String implements the stringer interface and returns the hex string of script.
 func (s *Script) String() string {
+	if s == nil {
+		return ""
+	}
 	return hex.EncodeToString(*s)
 }
 
